@@ -52,6 +52,8 @@ def same_bits(a, b):
             return False
         if x == 0.0 and y == 0.0:
             continue
+        if x != x and y != y:
+            continue  # NaN: sign and payload are not prescribed by either language
         if struct.pack("<d", x) != struct.pack("<d", y):
             return False
     return True
@@ -228,6 +230,6 @@ def _input_snapshot(spec, t):
             snap.append([int(idx[l][0][i]) for i in range(len(pos))])
             snap.append([int(idx[l][1][i]) for i in range(len(crd))])
     vp = ffi.cast("double*", t.vals)
-    snap.append([float(vp[i]) for i in range(len(spec.vals))])
+    snap.append([float(vp[i]).hex() for i in range(len(spec.vals))])  # hex: NaN must compare equal to itself
     snap.append([int(t.dimensions[i]) for i in range(len(spec.dims))])
     return snap
